@@ -30,6 +30,8 @@ func main() {
 		cmdRun(os.Args[2:])
 	case "race":
 		cmdRace(os.Args[2:])
+	case "selftest":
+		cmdSelftest()
 	case "prebuild":
 		cmdPrebuild(os.Args[2:])
 	default:
@@ -260,4 +262,43 @@ func cmdReplay(args []string) {
 // cmdPrebuild builds every build variant the checks use (warms GOCACHE).
 func cmdPrebuild(args []string) {
 	fmt.Println("prebuild: default variant built")
+}
+
+// cmdSelftest builds every universe / spec of every property and tier (construction errors show up here, not inside a job).
+func cmdSelftest() {
+	bad := 0
+	for _, tier := range []string{"quick", "thorough"} {
+		for p := range props {
+			n := 0
+			for _, d := range hist.Registry(p, tier) {
+				func() {
+					defer func() {
+						if r := recover(); r != nil {
+							bad++
+							fmt.Printf("FAIL %s %s %s: %v\n", p, tier, d.Name, r)
+						}
+					}()
+					u := d.Build()
+					if u.Name != d.Name {
+						bad++
+						fmt.Printf("NAME MISMATCH %s %s: registry %q, universe %q\n", p, tier, d.Name, u.Name)
+					}
+					n++
+				}()
+			}
+			fmt.Printf("%s %s: %d universes ok, %d jobs\n", p, tier, n, len(props[p].Jobs(tier, 0)))
+		}
+		func() {
+			defer func() {
+				if r := recover(); r != nil {
+					bad++
+					fmt.Println("FAIL products", tier, r)
+				}
+			}()
+			fmt.Printf("products %s: %d\n", tier, len(hist.ProductSpecs(tier)))
+		}()
+	}
+	if bad > 0 {
+		os.Exit(1)
+	}
 }
